@@ -15,7 +15,8 @@ res = {}
 try:
     for p in props:
         t = time.time()
-        r = subprocess.run(["/verif/check", p, "--tier", tier], capture_output=True, text=True, cwd="/verif")
+        root = os.path.dirname(os.path.dirname(os.path.abspath(__file__)))  # works from a copy of /verif too
+        r = subprocess.run([os.path.join(root, "check"), p, "--tier", tier], capture_output=True, text=True, cwd=root)
         lines = [l for l in r.stdout.splitlines() if l.startswith(("VIOLATION", "  what", "MACHINERY", "KNOWN"))]
         res[p] = r.returncode
         print("== %s exit=%d (%.0fs)" % (p, r.returncode, time.time() - t))
